@@ -21,5 +21,6 @@ CONSTANTS
   BugPadCredit = FALSE
   EncodeAtEnqueue = FALSE
   BugZeroCostHeld = TRUE
+  SplitOnlyAtEnqueue = FALSE
 INVARIANTS NoEligibleQueued
 CHECK_DEADLOCK FALSE
